@@ -122,6 +122,35 @@ class Types:
             pass
         return UNK
 
+    # ---- module-level constants ---------------------------------------------------------------
+    def const_type(self, module: str, name: str) -> T:
+        """Type of a module-level constant (following `from rnapolis.x import NAME`), inferred from its defining expression in
+        its own module: literals, constructor calls such as frozenset("ACGU"), comprehensions, set algebra on other constants."""
+        try:
+            hm, hn = self.repo.const_home(module, name)
+            mod = self.repo.modules[hm]
+            if hn not in mod.consts:
+                return UNK
+        except Exception:
+            return UNK
+        key = ("<const>", hm + "." + hn)
+        if key in self._ret:
+            return self._ret[key]
+        if key in self._busy:
+            return UNK
+        self._busy.add(key)
+        try:
+            fake = ast.FunctionDef(name="<module>", args=ast.arguments(posonlyargs=[], args=[], vararg=None, kwonlyargs=[], kw_defaults=[], kwarg=None, defaults=[]), body=[ast.Pass()], decorator_list=[], returns=None, lineno=1, col_offset=0)
+            ft = FuncTypes(self, FuncInfo(mod, "<module>", fake, None))
+            e = mod.consts[hn]
+            t = ft._refine(e, ft.of(e))
+        except Exception:
+            t = UNK
+        finally:
+            self._busy.discard(key)
+        self._ret[key] = t
+        return t
+
     # ---- class members ------------------------------------------------------------------
     def member(self, ct: T, attr: str) -> T:
         if not (isinstance(ct, tuple) and ct[0] == "cls"):
@@ -305,6 +334,8 @@ class FuncTypes:
                 self._bind(n.target, ty)
             elif isinstance(n, (ast.For, ast.AsyncFor)):
                 self._bind(n.target, elem(self.of(n.iter)))
+            elif isinstance(n, ast.NamedExpr):
+                self._bind(n.target, self.of(n.value))
             elif isinstance(n, ast.With):
                 for it in n.items:
                     if it.optional_vars is not None:
@@ -353,6 +384,139 @@ class FuncTypes:
         t = self._of(e)
         return t if self._fix else _top(t)
 
+    # ---- reaching definitions of a reused name ------------------------------------------------------------------------
+    def _layout(self):
+        """statement -> (block, index, parent statement); expression node -> its statement (nested defs excluded)."""
+        if getattr(self, "_lay", None) is not None:
+            return self._lay
+        where: Dict[int, Tuple[list, int, Optional[ast.AST]]] = {}
+        stmt_of: Dict[int, ast.AST] = {}
+
+        def block(stmts, parent):
+            for i, st in enumerate(stmts):
+                where[id(st)] = (stmts, i, parent)
+                if isinstance(st, (ast.FunctionDef, ast.AsyncFunctionDef, ast.ClassDef)):
+                    continue
+                for fld in ("body", "orelse", "finalbody"):
+                    b = getattr(st, fld, None)
+                    if isinstance(b, list) and b and isinstance(b[0], ast.stmt):
+                        block(b, st)
+                for h in getattr(st, "handlers", []) or []:
+                    block(h.body, st)
+                for n in ast.walk(st):
+                    if isinstance(n, ast.expr) and id(n) not in stmt_of:
+                        stmt_of[id(n)] = st
+
+        block(self.fi.node.body, None)
+        # the innermost statement wins: walk again, deeper statements overwrite
+        def assign(stmts):
+            for st in stmts:
+                if isinstance(st, (ast.FunctionDef, ast.AsyncFunctionDef, ast.ClassDef)):
+                    continue
+                heads = [getattr(st, f, None) for f in ("test", "iter", "value", "target", "targets", "items", "exc", "msg")]
+                for h in heads:
+                    for x in (h if isinstance(h, list) else [h]):
+                        if isinstance(x, ast.AST):
+                            for n in ast.walk(x):
+                                stmt_of[id(n)] = st
+                for fld in ("body", "orelse", "finalbody"):
+                    b = getattr(st, fld, None)
+                    if isinstance(b, list) and b and isinstance(b[0], ast.stmt):
+                        assign(b)
+                for h in getattr(st, "handlers", []) or []:
+                    assign(h.body)
+
+        assign(self.fi.node.body)
+        self._lay = (where, stmt_of)
+        return self._lay
+
+    def _def_index(self):
+        """name -> its plain `name = value` statements; names that are (also) bound by a loop, with, walrus, tuple target, parameter ..."""
+        if getattr(self, "_defidx", None) is not None:
+            return self._defidx
+        plain: Dict[str, List[ast.Assign]] = {}
+        other = {a.arg for a in self.fi.node.args.args + self.fi.node.args.kwonlyargs + self.fi.node.args.posonlyargs}
+        if self.fi.node.args.vararg:
+            other.add(self.fi.node.args.vararg.arg)
+        if self.fi.node.args.kwarg:
+            other.add(self.fi.node.args.kwarg.arg)
+        for n in astq.walk_no_nested(self.fi.node):
+            if isinstance(n, ast.Assign):
+                for t in n.targets:
+                    if isinstance(t, ast.Name):
+                        plain.setdefault(t.id, []).append(n)
+                    else:
+                        other |= {x.id for x in ast.walk(t) if isinstance(x, ast.Name) and isinstance(x.ctx, ast.Store)}
+            elif isinstance(n, (ast.AnnAssign, ast.AugAssign, ast.For, ast.AsyncFor, ast.NamedExpr, ast.comprehension)):
+                other |= {x.id for x in ast.walk(n.target) if isinstance(x, ast.Name)}
+            elif isinstance(n, ast.With):
+                for it in n.items:
+                    if it.optional_vars is not None:
+                        other |= {x.id for x in ast.walk(it.optional_vars) if isinstance(x, ast.Name)}
+            elif isinstance(n, (ast.Global, ast.Nonlocal)):
+                other |= set(n.names)
+            elif isinstance(n, ast.ExceptHandler) and n.name:
+                other.add(n.name)
+        self._defidx = (plain, other)
+        return self._defidx
+
+    def _ancestors(self, st) -> List[ast.AST]:
+        where, _ = self._layout()
+        out = []
+        cur = st
+        while cur is not None and id(cur) in where:
+            out.append(cur)
+            cur = where[id(cur)][2]
+        return out
+
+    def _reaching_type(self, use: ast.Name) -> Optional[T]:
+        """Join of the types of the plain `name = value` definitions that can reach this use; None when that cannot be told."""
+        if id(use) in self._busy:
+            return None
+        plain, other = self._def_index()
+        if use.id in other:
+            return None  # bound in another way somewhere: keep the joined (unknown) reading
+        defs = plain.get(use.id, [])
+        if len(defs) < 2:
+            return None
+        where, stmt_of = self._layout()
+        ust = stmt_of.get(id(use))
+        if ust is None:
+            return None
+        u_anc = self._ancestors(ust)
+        u_loops = [a for a in u_anc if isinstance(a, (ast.For, ast.While, ast.AsyncFor))]
+        reach = []
+        for d in defs:
+            if d is ust:
+                continue
+            before = (d.lineno, d.col_offset) < (use.lineno, use.col_offset)
+            shares_loop = any(l in self._ancestors(d) for l in u_loops)
+            if before or shares_loop:
+                reach.append(d)
+        # a definition that sits unconditionally on the straight way to the use hides every earlier one
+        killers = []
+        for d in reach:
+            if (d.lineno, d.col_offset) >= (use.lineno, use.col_offset):
+                continue
+            blk, idx, _ = where[id(d)]
+            for a in u_anc:
+                if id(a) in where and where[id(a)][0] is blk and where[id(a)][1] > idx:
+                    killers.append(d)
+                    break
+        if killers:
+            last = max(killers, key=lambda d: (d.lineno, d.col_offset))
+            reach = [d for d in reach if (d.lineno, d.col_offset) >= (last.lineno, last.col_offset) or any(l in self._ancestors(d) for l in u_loops) and (d.lineno, d.col_offset) > (use.lineno, use.col_offset)]
+        if not reach:
+            return None
+        r = None
+        self._busy.add(id(use))
+        try:
+            for d in reach:
+                r = join(r, self.of(d.value))
+        finally:
+            self._busy.discard(id(use))
+        return r
+
     def _of(self, e: Optional[ast.AST]) -> T:
         if e is None:
             return "none"
@@ -362,12 +526,18 @@ class FuncTypes:
             return "str"
         if isinstance(e, ast.Name):
             if e.id in self.env:
-                return self._refine(e, self.env[e.id])
+                t0 = self.env[e.id]
+                if t0 == UNK:
+                    # a name reused for values of different types joins to unknown; at this use only the definitions that can reach it count
+                    t1 = self._reaching_type(e)
+                    if t1 is not None and t1 != UNK:
+                        return self._refine(e, t1)
+                return self._refine(e, t0)
             if e.id in ("True", "False"):
                 return "bool"
             if self._fix and astq.assignments(self.fi.node, e.id):
                 return None  # bound later in the fixpoint iteration
-            return UNK
+            return self.ty.const_type(self.fi.module.name, e.id)
         if isinstance(e, ast.Tuple):
             return ("tuple", tuple(self.of(x) for x in e.elts))
         if isinstance(e, ast.List):
@@ -440,6 +610,8 @@ class FuncTypes:
             return self._call(e)
         if isinstance(e, ast.Starred):
             return self.of(e.value)
+        if isinstance(e, ast.NamedExpr):
+            return self.of(e.value)
         if isinstance(e, ast.Lambda):
             return UNK
         return UNK
@@ -508,7 +680,15 @@ class FuncTypes:
             if d in ("itertools.combinations", "itertools.permutations"):
                 return ("list", ("tupleof", elem(self.of(args[0])) if args else UNK))
             if d == "itertools.product":
-                return ("list", ("tupleof", UNK))
+                r = None
+                for a in args:
+                    if isinstance(a, ast.Starred):
+                        r = join(r, elem(elem(self._refine(a.value, self.of(a.value)))))  # product(*L): every member of L contributes its elements
+                    else:
+                        r = join(r, elem(self._refine(a, self.of(a))))
+                return ("list", ("tupleof", r if r is not None else UNK))
+            if d == "itertools.chain.from_iterable":
+                return ("list", elem(elem(self._refine(args[0], self.of(args[0])))) if args else UNK)
             if d in ("itertools.chain",):
                 r = None
                 for a in args:
